@@ -35,3 +35,44 @@ var (
 )
 
 const VerifControlMagic = controlMagic
+
+// ---- sender dispatch machine (C17)
+
+type VerifSendState struct{ s *sendFileState }
+
+func VerifNewSendState(total uint32, chunk uint32) *VerifSendState {
+	st := &sendFileState{chunkSize: chunk, totalChunks: total, readyCh: make(chan struct{})}
+	st.item.Size = int64(total) * int64(chunk)
+	return &VerifSendState{st}
+}
+func (v *VerifSendState) Take() (uint32, uint32, bool) { return v.s.nextChunkToSend() }
+func (v *VerifSendState) Finish() bool                 { return v.s.markChunkDone() }
+func (v *VerifSendState) TryEnd() bool                 { return v.s.trySendEnd() }
+
+// the effects of applyResumeInfo and its verification goroutine on the state, field for field
+func (v *VerifSendState) ApplyPlan(bits []bool, forceFrom uint32) {
+	bm := NewBitmap(int(v.s.totalChunks))
+	for i, b := range bits {
+		if b {
+			bm.Set(i)
+		}
+	}
+	v.s.mu.Lock()
+	v.s.plan = &resumePlan{bitmap: bm, forceSendFrom: forceFrom, totalChunks: v.s.totalChunks}
+	v.s.mu.Unlock()
+}
+func (v *VerifSendState) VerifyBegin() { v.s.mu.Lock(); v.s.verifyPending = true; v.s.mu.Unlock() }
+func (v *VerifSendState) Verdict(mismatch bool, c uint32) {
+	v.s.mu.Lock()
+	if mismatch {
+		v.s.resendChunk = c
+		v.s.resendPending = true
+	}
+	v.s.verifyPending = false
+	v.s.mu.Unlock()
+}
+func (v *VerifSendState) Dump() (next uint32, inFlight int, sd, es, vp, rp bool, rc uint32) {
+	v.s.mu.Lock()
+	defer v.s.mu.Unlock()
+	return v.s.nextChunk, v.s.inFlight, v.s.scheduleDone, v.s.endSent, v.s.verifyPending, v.s.resendPending, v.s.resendChunk
+}
